@@ -96,5 +96,44 @@ func drawC06Import(t *rapid.T) C06Case {
 	return c
 }
 
+// drawC06Prices: journals from the C12 price-graph generator (forests plus free declarations: alternative
+// paths of equal length, cycles, redeclarations), one unit of every commodity held, under the valued commands.
+func drawC06Prices(t *rapid.T) C06Case {
+	pc := drawC12(t, true)
+	v := pc.Coms[pc.V]
+	c := C06Case{Files: map[string]string{"main.knut": c12Journal(pc)}, Class: "price-graph", Runs: 8}
+	if thorough() {
+		c.Runs = 24
+	}
+	switch rapid.IntRange(0, 4).Draw(t, "cmd") {
+	case 0:
+		c.Argv = []string{"transcode", "-v", v, "main.knut"}
+	case 1:
+		c.Argv = []string{"register", "--color=false", "-v", v, "--to", "2031-01-01", "main.knut"}
+	case 2:
+		c.Argv = []string{"portfolio", "weights", "--color=false", "--csv", "-v", v, "--to", "2031-01-01", "main.knut"}
+	default:
+		c.Argv = []string{"balance", "--color=false", "-v", v, "--days", "--to", "2031-01-01", "--digits", "8", "main.knut"}
+		if rapid.Bool().Draw(t, "csv") {
+			c.Argv = append(c.Argv[:len(c.Argv)-1], "--csv", "main.knut")
+		}
+	}
+	pairs := map[[2]int]bool{}
+	for _, d := range pc.Decls {
+		a, b := d.C, d.T
+		if a > b {
+			a, b = b, a
+		}
+		if a != b {
+			pairs[[2]int{a, b}] = true
+		}
+	}
+	if len(pairs) >= len(pc.Coms) && len(pc.Hold) >= 2 {
+		c.Ties = append(c.Ties, "tie:alternative-price-paths")
+	}
+	return c
+}
+
+func TestC06Prices(t *testing.T) { runProp(t, "C06", "repeat-runs", drawC06Prices, checkC06) }
 func TestC06Infer(t *testing.T)  { runProp(t, "C06", "repeat-runs", drawC06Infer, checkC06) }
 func TestC06Import(t *testing.T) { runProp(t, "C06", "repeat-runs", drawC06Import, checkC06) }
